@@ -18,6 +18,7 @@ package transform
 
 import (
 	"fmt"
+	"reflect"
 
 	"github.com/compose-spec/compose-go/v2/tree"
 	"github.com/sirupsen/logrus"
@@ -42,7 +43,7 @@ func transformMaybeExternal(data any, p tree.Path, ignoreParseError bool) (any, 
 			resource["external"] = true
 			if extname, extNamed := external["name"]; extNamed {
 				logrus.Warnf("%s: external.name is deprecated. Please set name and external: true", p)
-				if named && extname != name {
+				if named && !reflect.DeepEqual(extname, name) {
 					return nil, fmt.Errorf("%s: name and external.name conflict; only use name", p)
 				}
 				if !named {
